@@ -352,7 +352,11 @@ pub fn read_conference_create_response(cc_response: &mut dyn Read) -> RdpResult<
             break;
         }
 
-        let mut buffer = vec![0 as u8; (cast!(DataType::U16, header["length"])? - header.length() as u16) as usize];
+        let block_length = cast!(DataType::U16, header["length"])?;
+        if (block_length as u64) < header.length() {
+            return Err(Error::RdpError(RdpError::new(RdpErrorKind::InvalidSize, "GCC: user data block shorter than its header")))
+        }
+        let mut buffer = vec![0 as u8; block_length as usize - header.length() as usize];
         sub.read_exact(&mut buffer)?;
 
         match MessageType::from(cast!(DataType::U16, header["type"])?) {
@@ -376,8 +380,10 @@ pub fn read_conference_create_response(cc_response: &mut dyn Read) -> RdpResult<
     }
 
     // All section are important
+    let server_net = result.get(&MessageType::ScNet).ok_or(Error::RdpError(RdpError::new(RdpErrorKind::InvalidData, "GCC: missing server network data")))?;
+    let server_core = result.get(&MessageType::ScCore).ok_or(Error::RdpError(RdpError::new(RdpErrorKind::InvalidData, "GCC: missing server core data")))?;
     Ok(ServerData{
-        channel_ids: cast!(DataType::Trame, result[&MessageType::ScNet]["channelIdArray"])?.into_iter().map(|x| cast!(DataType::U16, x).unwrap()).collect(),
-        rdp_version: Version::from(cast!(DataType::U32, result[&MessageType::ScCore]["rdpVersion"])?)
+        channel_ids: cast!(DataType::Trame, server_net["channelIdArray"])?.into_iter().map(|x| cast!(DataType::U16, x).unwrap()).collect(),
+        rdp_version: Version::from(cast!(DataType::U32, server_core["rdpVersion"])?)
     })
 }
